@@ -203,17 +203,19 @@ def lock_version(lock_text, crate):
     return m.group(1)
 
 
-def load_defs(repo='/repo'):
+def load_defs(repo='/repo', src=None):
+    """src: directory holding the crate sources (default <repo>/src); checks pass the snapshot the MIR was produced from"""
     lock = open(os.path.join(repo, 'Cargo.lock')).read()
+    srcdir = src or os.path.join(repo, 'src')
     defs = {}
     # repository first (names are unique enough; lib_wasm::CsiMethod shadows visitor one -> handle separately)
     repo_defs = {}
-    for path in sorted(glob.glob(os.path.join(repo, 'src', '**', '*.rs'), recursive=True)):
+    for path in sorted(glob.glob(os.path.join(srcdir, '**', '*.rs'), recursive=True)):
         if '/tests/' in path or path.endswith('lib_napi.rs'):
             continue
         mod = {}
         parse_source(open(path).read(), mod)
-        rel = os.path.relpath(path, os.path.join(repo, 'src'))
+        rel = os.path.relpath(path, srcdir)
         for k, v in mod.items():
             v.file = rel
             if rel == 'lib_wasm.rs':
